@@ -59,6 +59,8 @@ def entry_configs(cls: str) -> list:
                 out.append((pi, fs, w))
     if cls != "graph":
         out.append((3, 250, "sink_serialize"))  # GenericStatementSink.serialize(): own defaults
+        out.append((3, 250, "flat_to_file_default"))  # options guessed by the entry point
+        out.append((3, 250, "grouped_to_file_default"))
     return out
 
 
